@@ -276,9 +276,14 @@ func ValidateParameter(ctx context.Context, input *RequestValidationInput, param
 						}
 					}
 				}
+				text := formatDefaultValue(value)
+				if object, ok := value.(map[string]any); ok {
+					// cookies carry objects in the non-exploded form only
+					text = formatDefaultObject(object, false)
+				}
 				req.AddCookie(&http.Cookie{
 					Name:  parameter.Name,
-					Value: formatDefaultValue(value),
+					Value: text,
 				})
 			}
 		}
